@@ -1272,6 +1272,65 @@ func callBuiltin(caller *frame, callpos token.Pos, fn *ssa.Builtin, args []value
 
 	case "ssa:deferstack":
 		return &caller.defers
+
+	case "SliceData": // unsafe.SliceData(s) -> &s[0]; remembered for unsafe.String/Slice
+		sl := args[0].([]value)
+		if cap(sl) == 0 {
+			return (*value)(nil)
+		}
+		full := sl[:cap(sl)]
+		caller.i.sliceData[&full[0]] = full
+		return &full[0]
+
+	case "StringData": // unsafe.StringData(str): a fresh read-only copy of the bytes
+		cells := append([]value{}, strCells(args[0])...)
+		if len(cells) == 0 {
+			return (*value)(nil)
+		}
+		caller.i.sliceData[&cells[0]] = cells
+		return &cells[0]
+
+	case "String": // unsafe.String(ptr, len)
+		p := args[0].(*value)
+		n := int(asInt64(caller.i.concretize(args[1])))
+		if n == 0 {
+			return ""
+		}
+		base, ok := caller.i.sliceData[p]
+		if !ok {
+			// &b[k] taken with ordinary indexing: find the slice among the
+			// frame's values
+			for _, v := range caller.env {
+				if sl, isSl := v.([]value); isSl {
+					full := sl[:cap(sl)]
+					for k := range full {
+						if &full[k] == p {
+							base, ok = full[k:], true
+							break
+						}
+					}
+				}
+				if ok {
+					break
+				}
+			}
+		}
+		if !ok || n > len(base) {
+			panic(engineError{"not encodable: unsafe.String on a pointer whose slice is unknown"})
+		}
+		return mkString(base[:n])
+
+	case "Slice": // unsafe.Slice(ptr, len)
+		p := args[0].(*value)
+		n := int(asInt64(caller.i.concretize(args[1])))
+		if p == nil {
+			return []value(nil)
+		}
+		base, ok := caller.i.sliceData[p]
+		if !ok || n > len(base) {
+			panic(engineError{"not encodable: unsafe.Slice on a pointer not obtained from unsafe.SliceData/StringData"})
+		}
+		return base[:n:n]
 	}
 
 	panic("unknown built-in: " + fn.Name())
